@@ -154,17 +154,10 @@ func (s *Server) setSettings(settings serverSettings) {
 		s.docGen.Add(1)
 		s.dropPayeeTemplates()
 		if s.workspace != nil {
+			// built anew, never changed in place: requests being answered
+			// meanwhile keep the tree they started with (open documents are
+			// read from their buffers by the loader)
 			_ = s.workspace.Initialize()
-			s.documents.Range(func(key, value any) bool {
-				if docURI, ok := key.(protocol.DocumentURI); ok {
-					if text, ok := value.(string); ok {
-						if path := uriToPath(docURI); path != "" {
-							s.workspace.UpdateFile(path, text)
-						}
-					}
-				}
-				return true
-			})
 		}
 	}
 	if oldSettings.CLI.Path != settings.CLI.Path || oldSettings.CLI.Timeout != settings.CLI.Timeout {
@@ -178,7 +171,16 @@ func (s *Server) getSettings() serverSettings {
 	return s.settings
 }
 
+// refreshConfiguration asks the client for its configuration and applies the
+// answer. Refreshes run in goroutines of their own and may overlap: each takes
+// a number when it is requested, and an answer is dropped when the answer to
+// a later request has already been applied — otherwise the settings of an
+// older notification could overwrite those of a newer one for good.
 func (s *Server) refreshConfiguration(ctx context.Context) {
+	s.refreshConfigurationAt(ctx, s.cfgRequested.Add(1))
+}
+
+func (s *Server) refreshConfigurationAt(ctx context.Context, seq uint64) {
 	verifhook.Point("config.start")
 	defer verifhook.Point("config.done")
 	if s.client == nil || !s.supportsConfiguration {
@@ -192,12 +194,20 @@ func (s *Server) refreshConfiguration(ctx context.Context) {
 	if err != nil || len(result) == 0 {
 		return
 	}
+	// reading the current settings, merging the answer into them and storing
+	// the result is one step
+	s.cfgApplyMu.Lock()
+	defer s.cfgApplyMu.Unlock()
+	if seq < s.cfgApplied {
+		return
+	}
+	s.cfgApplied = seq
 	settings := parseSettingsFromRaw(s.getSettings(), result[0])
 	s.setSettings(settings)
 }
 
 func (s *Server) DidChangeConfiguration(_ context.Context, _ *protocol.DidChangeConfigurationParams) error {
-	go s.refreshConfiguration(context.Background())
+	go s.refreshConfigurationAt(context.Background(), s.cfgRequested.Add(1))
 	return nil
 }
 
